@@ -325,10 +325,11 @@ Proof.
       remember (Z.log2 cs) as j eqn:Ej. clear Ej. subst cs.
       destruct (halve_strict (Z.to_nat (Z.log2 (2 ^ j))) j (tc_len best) Hj)
         as [j' [Hj' He]].
+      rewrite Z.log2_pow2 in He by lia. cbn [halve] in He.
       rewrite He. rewrite Z.log2_pow2 by lia.
-      repeat split; try assumption; try lia.
-      * apply pow2_intro. lia.
-      * destruct r; lia.
+      split; [reflexivity|]. split; [reflexivity|]. split; [reflexivity|].
+      split; [reflexivity|]. split; [apply pow2_intro; lia|].
+      destruct r; lia.
 Qed.
 
 Lemma decide_ok : forall n cfg s best,
@@ -347,13 +348,13 @@ Proof.
   - assert (Hmin' : 1 <= m_min_chunk s') by lia.
     assert (Hce' : m_chunk_end s' = 0) by lia.
     pose proof (propose_chunk_zero n s' best Hwf Hn Hp' Hmin' E0 Hce') as H.
-    destruct (propose_chunk s' best) as [t k| | |]; try exact H.
+    destruct (propose_chunk s' best) as [t k| | |]; try contradiction.
     eapply prop_ok_weaken; [exact H|]. intros N HN. cbv beta. unfold MD.
     replace (tc_len best =? 0) with true by lia. lia.
   - assert (Hmin' : 1 <= m_min_chunk s') by lia.
     assert (Hce' : 1 <= m_chunk_end s' <= tc_len best) by lia.
     pose proof (propose_chunk_ok n s' best Hwf Hn Hp' Hmin' Hce') as H.
-    destruct (propose_chunk s' best) as [t k| | |]; try exact H.
+    destruct (propose_chunk s' best) as [t k| | |]; try contradiction.
     eapply prop_ok_weaken; [exact H|]. intros N HN. cbv beta. unfold MD.
     replace (tc_len best =? 0) with false by lia.
     rewrite Hce. unfold wgt at 1. rewrite Hr. unfold b2z at 1.
@@ -362,3 +363,333 @@ Proof.
       by (apply Z.mul_le_mono_nonneg_r; lia).
     lia.
 Qed.
+
+(* ------------------------------------------------------------------ *)
+(* one step of the strategy                                           *)
+(* ------------------------------------------------------------------ *)
+
+Definition step_ok (n : Z) (s : mstate) (best : tcase) (st : step mstate) : Prop :=
+  match st with
+  | Done => True
+  | Fail _ => False
+  | RawWrite _ s' =>
+      minv n s' best /\
+      forall N d, 0 <= d -> n + 1 + d <= N ->
+        M N s' (tc_len best) + d <= M N s (tc_len best)
+  | Propose t k => prop_ok n (fun N => M N s (tc_len best)) best t k
+  end.
+
+Lemma mnext_ok : forall n cfg clk post s best,
+  post_ok post -> minv n s best -> step_ok n s best (mnext cfg clk post s best).
+Proof.
+  intros n cfg clk post s best Hpost Hi.
+  destruct Hi as [Hwf Hn Hp Hmin Hph].
+  pose proof (tc_len_nonneg best Hwf) as HL.
+  pose proof (wgt_nonneg s Hp) as Hw.
+  destruct s as [cs mc ce r dl rd ph].
+  cbn [m_chunk_size m_min_chunk m_chunk_end m_phase] in Hp, Hmin, Hph.
+  unfold mnext. cbn [m_phase]. destruct ph as [|t'|e|].
+  - (* PHead *)
+    cbn [m_chunk_size m_min_chunk m_chunk_end m_removed m_deadline m_reads].
+    destruct (match dl with Some d => clk rd >? d | None => false end) eqn:Eexp; [exact I|].
+    pose proof (pow2_pos cs Hp) as Hcs.
+    destruct (ce - cs <? 0) eqn:Eend.
+    + destruct (tc_len best =? 0) eqn:EL; [exact I|].
+      destruct (post best) as [[raw [t'|e]]|] eqn:Epost.
+      * (* raw write, then the post-round proposal *)
+        destruct (Hpost best raw (Ok t') Hwf Epost) as (t2 & Ht2 & Hwt & Hlt).
+        injection Ht2 as Ht2. subst t2.
+        cbn [step_ok]. unfold set_phase.
+        cbn [m_chunk_size m_min_chunk m_chunk_end m_removed m_deadline m_reads].
+        split.
+        -- constructor; cbn [m_chunk_size m_min_chunk m_chunk_end m_phase]; try assumption.
+           split; assumption.
+        -- intros N d Hd HN. unfold M, MH, MD, wgt in *.
+           cbn [m_chunk_size m_min_chunk m_chunk_end m_removed m_phase] in *.
+           rewrite EL. lia.
+      * destruct (Hpost best raw (Err e) Hwf Epost) as (t2 & Ht2 & _). discriminate Ht2.
+      * (* no post-round callback: decide immediately *)
+        match goal with |- step_ok _ _ _ (decide _ ?s1 _) =>
+          pose proof (decide_ok n cfg s1 best Hwf Hn Hp Hmin) as H;
+          destruct (decide cfg s1 best) as [t k| | |]; try contradiction; [|exact I]
+        end.
+        cbn [step_ok]. eapply prop_ok_weaken; [exact H|].
+        intros N HN. cbv beta. unfold M, MH, MD, wgt in *.
+        cbn [m_chunk_size m_min_chunk m_chunk_end m_removed m_phase] in *.
+        rewrite EL. lia.
+    + (* a chunk proposal inside a sweep *)
+      match goal with |- step_ok _ _ _ (propose_chunk ?s1 _) =>
+        assert (Hce : 1 <= m_chunk_end s1 <= tc_len best)
+          by (cbn [m_chunk_end]; lia);
+        pose proof (propose_chunk_ok n s1 best Hwf Hn Hp Hmin Hce) as H;
+        destruct (propose_chunk s1 best) as [t k| | |]; try contradiction
+      end.
+      cbn [step_ok]. eapply prop_ok_weaken; [exact H|].
+      intros N HN. cbv beta. unfold M, MH, wgt in *.
+      cbn [m_chunk_size m_min_chunk m_chunk_end m_removed m_phase] in *.
+      replace (tc_len best =? 0) with false by lia. lia.
+  - (* PPost t' *)
+    destruct Hph as [Hwt Hlt].
+    pose proof (tc_len_nonneg t' Hwt) as Ht0.
+    cbn [step_ok]. intros o. cbv zeta. unfold set_phase.
+    cbn [m_chunk_size m_min_chunk m_chunk_end m_removed m_deadline m_reads].
+    assert (Hgen : forall b, wf b -> 0 <= tc_len b <= tc_len best ->
+      minv n {| m_chunk_size := cs; m_min_chunk := mc; m_chunk_end := ce; m_removed := r;
+                m_deadline := dl; m_reads := rd; m_phase := PDecide |} b /\
+      forall N, n + 1 <= N ->
+        M N {| m_chunk_size := cs; m_min_chunk := mc; m_chunk_end := ce; m_removed := r;
+               m_deadline := dl; m_reads := rd; m_phase := PDecide |} (tc_len b) + 1 <=
+        M N {| m_chunk_size := cs; m_min_chunk := mc; m_chunk_end := ce; m_removed := r;
+               m_deadline := dl; m_reads := rd; m_phase := PPost t' |} (tc_len best)).
+    { intros b Hwb Hlb. split.
+      - constructor; cbn [m_chunk_size m_min_chunk m_chunk_end m_phase]; try assumption; [lia | exact I].
+      - intros N HN. unfold M. cbn [m_phase].
+        assert (HN0 : 0 <= N) by lia.
+        pose proof (MD_mono N {| m_chunk_size := cs; m_min_chunk := mc; m_chunk_end := ce;
+                                 m_removed := r; m_deadline := dl; m_reads := rd;
+                                 m_phase := PDecide |} (tc_len best) (tc_len b) HN0 Hw Hlb) as Hm.
+        unfold MD, wgt in *. cbn [m_chunk_size m_removed] in *. lia. }
+    destruct o as [|[|]]; apply Hgen; try assumption; lia.
+  - (* PPostFail *)
+    contradiction.
+  - (* PDecide *)
+    match goal with |- step_ok _ _ _ (decide _ ?s1 _) =>
+      pose proof (decide_ok n cfg s1 best Hwf Hn Hp Hmin) as H;
+      destruct (decide cfg s1 best) as [t k| | |]; try contradiction; [|exact I]
+    end.
+    cbn [step_ok]. eapply prop_ok_weaken; [exact H|].
+    intros N HN. cbv beta. unfold M. cbn [m_phase]. lia.
+Qed.
+
+(* ------------------------------------------------------------------ *)
+(* the driver loop                                                    *)
+(* ------------------------------------------------------------------ *)
+
+Lemma n_tests_write_file : forall b w, n_tests (chron (write_file b w)) = n_tests (chron w).
+Proof.
+  intros b w. rewrite chron_write_file, n_tests_app.
+  change (n_tests [EWrite b]) with 0. lia.
+Qed.
+
+Lemma n_tests_wafter : forall w t a, n_tests (chron (wafter w t a)) = n_tests (chron w) + 1.
+Proof.
+  intros w t a. rewrite chron_wafter, n_tests_app. f_equal.
+  destruct a; reflexivity.
+Qed.
+
+Lemma n_tests_finally : forall w, n_tests (chron (finally w)) = n_tests (chron w).
+Proof.
+  intros w. destruct (finally_chron_quiet w) as (q & Hq & Hc).
+  rewrite Hc. apply n_tests_quiet_app. exact Hq.
+Qed.
+
+Definition loop_res_ok (bound : Z) (r : result) : Prop :=
+  match r with
+  | NoFuel _ => False
+  | Aborted (Some _) _ => False
+  | Aborted None w' => n_tests (chron w') <= bound
+  | Finished _ w' => n_tests (chron w') <= bound
+  end.
+
+Lemma loop_bounded : forall n cfg clk post verdict, post_ok post ->
+  forall fuel st it w,
+    minv n st (it_best it) ->
+    M (n + 2) st (tc_len (it_best it)) + 1 <= Z.of_nat fuel ->
+    loop_res_ok (n_tests (chron w) + M (n + 1) st (tc_len (it_best it)))
+                (loop (minimize cfg clk post) verdict fuel st it w).
+Proof.
+  intros n cfg clk post verdict Hpost.
+  induction fuel as [|fuel IH]; intros st it w Hi Hfuel.
+  - assert (Hn0 : 0 <= n).
+    { pose proof (tc_len_nonneg _ (mi_wf _ _ _ Hi)) as H0. pose proof (mi_len _ _ _ Hi). lia. }
+    pose proof (M_nonneg n (n + 2) st (it_best it) Hi) as H0. lia.
+  - assert (Hn0 : 0 <= n).
+    { pose proof (tc_len_nonneg _ (mi_wf _ _ _ Hi)) as H0. pose proof (mi_len _ _ _ Hi). lia. }
+    pose proof (M_nonneg n (n + 1) st (it_best it) Hi) as HM1.
+    pose proof (mnext_ok n cfg clk post st (it_best it) Hpost Hi) as Hstep.
+    cbn [loop]. cbn [s_next minimize].
+    destruct (mnext cfg clk post st (it_best it)) as [t k|b st'| |e]; cbn [step_ok] in Hstep.
+    + (* Propose *)
+      destruct (mem_bytes (content t) (it_tried it)) eqn:Hmem.
+      * destruct (Hstep Skipped) as [Hi' Hm']. cbv zeta in Hi', Hm'.
+        pose proof (Hm' (n + 1)) as Hm1. pose proof (Hm' (n + 2)) as Hm2.
+        specialize (IH (k Skipped) it w Hi').
+        unfold loop_res_ok in *.
+        destruct (loop (minimize cfg clk post) verdict fuel (k Skipped) it w) as [rc wf|[e|] wf|wf];
+          lia.
+      * destruct (interesting verdict w t true) as [w' a] eqn:Hint.
+        destruct (interesting_true_inv verdict w t w' a Hint) as [_ Hw']. subst w'.
+        pose proof (n_tests_wafter w t a) as Hnt.
+        destruct a.
+        -- destruct (Hstep (Tested true)) as [Hi' Hm']. cbv zeta in Hi', Hm'.
+           pose proof (Hm' (n + 1)) as Hm1. pose proof (Hm' (n + 2)) as Hm2.
+           specialize (IH (k (Tested true))
+                          {| it_best := t;
+                             it_tried := it_tried {| it_best := it_best it;
+                                                     it_tried := content t :: it_tried it;
+                                                     it_any := it_any it |};
+                             it_any := true |} (wafter w t Yes)).
+           cbn [it_best] in IH. specialize (IH Hi').
+           unfold loop_res_ok in *.
+           match goal with |- match ?l with _ => _ end =>
+             destruct l as [rc wf|[e|] wf|wf]; lia end.
+        -- destruct (Hstep (Tested false)) as [Hi' Hm']. cbv zeta in Hi', Hm'.
+           pose proof (Hm' (n + 1)) as Hm1. pose proof (Hm' (n + 2)) as Hm2.
+           specialize (IH (k (Tested false))
+                          {| it_best := it_best it; it_tried := content t :: it_tried it;
+                             it_any := it_any it |} (wafter w t No)).
+           cbn [it_best] in IH. specialize (IH Hi').
+           unfold loop_res_ok in *.
+           match goal with |- match ?l with _ => _ end =>
+             destruct l as [rc wf|[e|] wf|wf]; lia end.
+        -- destruct (Hstep (Tested false)) as [Hi' Hm']. cbv zeta in Hi', Hm'.
+           pose proof (Hm' (n + 1)) as Hm1.
+           pose proof (M_nonneg n (n + 1) _ _ Hi') as H0.
+           cbn [loop_res_ok]. lia.
+    + (* RawWrite *)
+      destruct Hstep as [Hi' Hm'].
+      pose proof (Hm' (n + 1) 0) as Hm1. pose proof (Hm' (n + 2) 1) as Hm2.
+      specialize (IH st' it (write_file b w) Hi').
+      rewrite n_tests_write_file in IH.
+      unfold loop_res_ok in *.
+      destruct (loop (minimize cfg clk post) verdict fuel st' it (write_file b w))
+        as [rc wf|[e|] wf|wf]; lia.
+    + (* Done *)
+      cbn [loop_res_ok]. rewrite n_tests_write_file. lia.
+    + contradiction.
+Qed.
+
+(* ------------------------------------------------------------------ *)
+(* the initial state                                                  *)
+(* ------------------------------------------------------------------ *)
+
+Lemma log2_le_clog2 : forall n, 1 <= n -> Z.log2 n <= clog2 n.
+Proof.
+  intros n Hn. unfold clog2. destruct (n <=? 1) eqn:E.
+  - assert (n = 1) by lia. subst n. change (Z.log2 1) with 0. lia.
+  - apply Z.le_log2_log2_up.
+Qed.
+
+Lemma clog2_nonneg : forall n, 0 <= clog2 n.
+Proof.
+  intros n. unfold clog2. destruct (n <=? 1); [lia | apply Z.log2_up_nonneg].
+Qed.
+
+Lemma c09_bound_ge1 : forall n, 0 <= n -> 1 <= c09_bound n.
+Proof.
+  intros n Hn. unfold c09_bound. pose proof (clog2_nonneg n) as Hc.
+  assert (H : 0 <= (n + 1) * (n + clog2 n + 2)) by (apply Z.mul_nonneg_nonneg; lia).
+  lia.
+Qed.
+
+Lemma mstart_chunk : forall cfg n, valid_cfg cfg -> 1 <= n ->
+  exists j, 0 <= j <= Z.log2 n /\
+    Z.min (c_max cfg) (largest_power_of_two_smaller_than n) = 2 ^ j.
+Proof.
+  intros cfg n [_ Hmax] Hn.
+  destruct (is_power_of_two_pow2 _ Hmax) as [a [Ha Hca]].
+  destruct (lpo2st_pow2 n Hn) as [b [Hb Hlb]].
+  rewrite Hca, Hlb.
+  destruct (Z.le_ge_cases (2 ^ a) (2 ^ b)) as [Hle|Hge].
+  - exists a. split; [|apply Z.min_l; exact Hle].
+    pose proof (pow2_le_exp a b Ha (proj1 Hb) Hle). lia.
+  - exists b. split; [lia | apply Z.min_r; exact Hge].
+Qed.
+
+Lemma mstart_ok : forall cfg clk tc0, wf tc0 -> valid_cfg cfg -> tc_len tc0 <> 0 ->
+  let n := tc_len tc0 in
+  minv n (mstart cfg clk tc0) tc0 /\
+  1 + M (n + 1) (mstart cfg clk tc0) n <= c09_bound n /\
+  M (n + 2) (mstart cfg clk tc0) n + 1 <= 2 * c09_bound n.
+Proof.
+  intros cfg clk tc0 Hwf Hv Hn0 n.
+  pose proof (tc_len_nonneg tc0 Hwf) as H0. fold n in H0, Hn0.
+  assert (Hn : 1 <= n) by lia.
+  destruct (mstart_chunk cfg n Hv Hn) as [j [Hj Hcs]].
+  pose proof (log2_le_clog2 n Hn) as Hc.
+  unfold mstart. fold n. rewrite Hcs.
+  pose proof (Z.pow_pos_nonneg 2 j) as Hpos.
+  split; [|split].
+  - constructor; cbn [m_chunk_size m_min_chunk m_chunk_end m_phase].
+    + exact Hwf.
+    + lia.
+    + apply pow2_intro. lia.
+    + lia.
+    + lia.
+  - unfold M, MH, wgt, b2z, c09_bound. cbn [m_chunk_size m_chunk_end m_removed m_phase].
+    replace (n =? 0) with false by lia. rewrite Z.log2_pow2 by lia.
+    assert (Hr : (if c_first cfg then 1 else 0) <= 1) by (destruct (c_first cfg); lia).
+    assert (H : (n + (j + (if c_first cfg then 1 else 0))) * (n + 1)
+                <= (n + clog2 n + 1) * (n + 1))
+      by (apply Z.mul_le_mono_nonneg_r; lia).
+    lia.
+  - unfold M, MH, wgt, b2z, c09_bound. cbn [m_chunk_size m_chunk_end m_removed m_phase].
+    replace (n =? 0) with false by lia. rewrite Z.log2_pow2 by lia.
+    assert (Hr : (if c_first cfg then 1 else 0) <= 1) by (destruct (c_first cfg); lia).
+    assert (H : (n + (j + (if c_first cfg then 1 else 0))) * (n + 2)
+                <= (n + clog2 n + 1) * (n + 2))
+      by (apply Z.mul_le_mono_nonneg_r; lia).
+    assert (H2 : 0 <= (n + clog2 n + 2) * n) by (apply Z.mul_nonneg_nonneg; lia).
+    lia.
+Qed.
+
+(* ------------------------------------------------------------------ *)
+(* the theorems used by Props/C09.v                                   *)
+(* ------------------------------------------------------------------ *)
+
+Theorem minimize_bounded :
+  forall cfg clk post verdict tc0 file0 fuel,
+    wf tc0 -> valid_cfg cfg -> post_ok post ->
+    (Z.to_nat (2 * c09_bound (tc_len tc0)) <= fuel)%nat ->
+    let r := run (minimize cfg clk post) verdict fuel tc0 file0 in
+    (forall w, r <> NoFuel w) /\ (forall e w, r <> Aborted (Some e) w) /\
+    n_tests (chron (result_world r)) <= c09_bound (tc_len tc0).
+Proof.
+  intros cfg clk post verdict tc0 file0 fuel Hwf Hv Hpost Hfuel r.
+  pose proof (tc_len_nonneg tc0 Hwf) as H0.
+  pose proof (c09_bound_ge1 (tc_len tc0) H0) as Hb1.
+  destruct (run_cases mstate (minimize cfg clk post) verdict fuel tc0 file0)
+    as [[Hn Hr]|[(Hn & Hv1 & Hr)|[(Hn & Hv1 & Hr)|(Hn & Hv1 & Hr)]]]; fold r in Hr.
+  - rewrite Hr. split; [intros w; discriminate|]. split; [intros e w; discriminate|].
+    cbn [result_world]. rewrite n_tests_finally.
+    change (n_tests (chron (w0 tc0 file0))) with 0. lia.
+  - rewrite Hr. split; [intros w; discriminate|]. split; [intros e w; discriminate|].
+    cbn [result_world]. rewrite n_tests_finally.
+    change (n_tests (chron (w1 tc0 file0 Raise))) with 1. lia.
+  - rewrite Hr. split; [intros w; discriminate|]. split; [intros e w; discriminate|].
+    cbn [result_world]. rewrite n_tests_finally.
+    change (n_tests (chron (wN tc0 file0))) with 1. lia.
+  - destruct (mstart_ok cfg clk tc0 Hwf Hv Hn) as (Hi & Ht & Hf). cbv zeta in Hi, Ht, Hf.
+    assert (Hfz : M (tc_len tc0 + 2) (mstart cfg clk tc0) (tc_len tc0) + 1 <= Z.of_nat fuel)
+      by lia.
+    pose proof (loop_bounded (tc_len tc0) cfg clk post verdict Hpost fuel
+                  (mstart cfg clk tc0) (it0 tc0) (wY tc0 file0) Hi Hfz) as Hl.
+    cbn [it0 it_best] in Hl.
+    change (n_tests (chron (wY tc0 file0))) with 1 in Hl.
+    cbn [s_start minimize] in Hr. rewrite Hr.
+    destruct (loop (minimize cfg clk post) verdict fuel (mstart cfg clk tc0) (it0 tc0)
+                   (wY tc0 file0)) as [rc wf|[e|] wf|wf];
+      cbn [loop_res_ok] in Hl; try contradiction; cbn [map_world result_world].
+    + split; [intros w; discriminate|]. split; [intros e w; discriminate|].
+      rewrite n_tests_finally. lia.
+    + split; [intros w; discriminate|]. split; [intros e w; discriminate|].
+      rewrite n_tests_finally. lia.
+Qed.
+
+Lemma no_post_ok : post_ok no_post.
+Proof. intros best raw r _ H. unfold no_post in H. discriminate H. Qed.
+
+Theorem minimize_bounded_no_post :
+  forall cfg clk verdict tc0 file0 fuel,
+    wf tc0 -> valid_cfg cfg ->
+    (Z.to_nat (2 * c09_bound (tc_len tc0)) <= fuel)%nat ->
+    let r := run (minimize cfg clk no_post) verdict fuel tc0 file0 in
+    (forall w, r <> NoFuel w) /\ (forall e w, r <> Aborted (Some e) w) /\
+    n_tests (chron (result_world r)) <= c09_bound (tc_len tc0).
+Proof.
+  intros cfg clk verdict tc0 file0 fuel Hwf Hv Hfuel.
+  exact (minimize_bounded cfg clk no_post verdict tc0 file0 fuel Hwf Hv no_post_ok Hfuel).
+Qed.
+
+Print Assumptions minimize_bounded.
+Print Assumptions minimize_bounded_no_post.
